@@ -283,6 +283,19 @@ func TestC12(t *testing.T) {
 					return true
 				})}
 			}})
+			// (8b) the caller cleared the legacy session id after the build (a documented edit; QUIC
+			// hellos have none either): nothing is to be echoed, and a ServerHello that carries a
+			// session id all the same does not echo the client's
+			add(advCase{name: "tls13_session_id_sent_to_a_hello_without_one", max: tls.VersionTLS13,
+				edit: func(u *tls.UConn) error { u.HandshakeState.Hello.SessionId = nil; return nil },
+				plan: func() *tls.VerifPlan {
+					sid := randBytes(rg, 32)
+					return &tls.VerifPlan{RewriteOut: rewriteServerHello(func(sh *wire.ServerHello) bool {
+						sh.SessionID = sid
+						return true
+					})}
+				},
+				void: func(ch *wire.ClientHello) bool { return len(ch.SessionID) != 0 }})
 			// (9) certificate compressed with an unadvertised algorithm (valid encoding)
 			if len(ch.CertCompAlgs) > 0 {
 				adv := map[uint16]bool{}
